@@ -7,7 +7,7 @@ HOOKS = {
 }
 ENGINES = [
     {'name': 'cxx-history', 'path': 'cxx/common/mc.h + cxx/common/isolate.h + lib/runner.py',
-     'serves_properties': ['C08', 'C10'],
+     'serves_properties': ['C08', 'C09', 'C10'],
      'kind_free_text': 'explicit-state / small-scope exploration of operation histories on freshly constructed real objects (bounds-checking brokers, step counters, forked isolation under ASan/UBSan)'},
     {'name': 'cxx-sweep', 'path': 'cxx/common/verif.h + lib/runner.py',
      'serves_properties': ['C01', 'C02', 'C06', 'C07'],
@@ -35,4 +35,7 @@ CHECKS = {
     'C08': dict(engine='cxx-history', category='model_checking', technique='explicit-state BFS over query histories on the real cache/binding automata with canonical-state deduplication, fresh-object oracle',
                 text='The hidden state behind the value-like API (per-processor year cache, processor<->zone binding, manager round-robin cache) is explored as an automaton on the real objects: every zone with its own processor (6 calls x 57 argument classes, to fixpoint = histories of any length), 2-3 TimeZone values sharing one processor, and zone managers with 1..4 slots holding more zones than slots, plus the Python ZoneSpecifier over every ordered year pair. Every transition is compared with the same call on a fresh object.',
                 note='argument classes are one instant/local time per year plus sentinels, not every instant (C01 covers instants); the canonical key is the complete cache content read through friend names and two read-only guarded hooks.'),
+    'C09': dict(engine='cxx-history', category='model_checking', technique='explicit-state history exploration + exhaustive boundary-domain sweeps on the real code under ASan/UBSan',
+                text='The C08 worlds are re-explored with hostile argument classes under AddressSanitizer (abort) and UndefinedBehaviorSanitizer (every distinct site reported), checking that out-of-range queries give the documented error value on a fresh object and every time they are repeated in any explored history; plus sweeps of every public factory/accessor over int32 epoch values, boundary component tuples, all int16 offsets/years, parser inputs of every length on exact-size heap strings, and the transition-buffer high-water mark / basic cache slots for every shipped zone and year 1999..2050.',
+                note='host LP64 only; int32 epoch sweep is strided (65521 quick / 251 thorough) plus dense windows at 12 boundaries; 15 known findings (signed overflow at the int32 extremes, unvalidated table index in dayOfWeek/daysInMonth) are listed in known_findings.json.'),
 }
